@@ -476,7 +476,9 @@ func (n *c25Node) flushBatcher(sync bool) bool {
 		case <-time.After(5 * time.Second):
 			return false
 		}
-		// the marker is a queued object: one request is emitted (by size or by the Flush)
+		// the marker is a queued object: one request is emitted (by size or by the Flush).
+		// Groups still in the hand-off channel when the sync arrived are drained first.
+		n.absorbWrites()
 		n.emitted++
 		n.pending = 0
 		return true
@@ -560,6 +562,29 @@ func (n *c25Node) applyOnly(t *testing.T, op string) bool {
 		}
 		n.log = append(n.log, e)
 		n.feed(e)
+	case "qentry":
+		// the entry is applied (its groups are in the hand-off channel) but nobody waits for
+		// the service to pick them up: the next operation races with them
+		k, _ := strconv.ParseUint(f[1], 10, 64)
+		e := c25Entry{idx: k, tx: f[2] == "1"}
+		if f[3] != "-" {
+			for _, s := range strings.Split(f[3], ",") {
+				v, _ := strconv.Atoi(s)
+				e.stmts = append(e.stmts, v)
+			}
+		}
+		n.log = append(n.log, e)
+		n.feed(e)
+		return true
+	case "qsync":
+		// a snapshot requested right after the entries were applied (raft calls Snapshot on the
+		// same goroutine as Apply): no waiting for quiescence first
+		if !n.flushBatcher(true) {
+			return false
+		}
+		if len(n.log) > 0 {
+			n.snap = n.log[len(n.log)-1].idx
+		}
 	case "timer":
 		if !n.settle() {
 			return false
@@ -758,7 +783,16 @@ func c25RunHistory(t *testing.T, root string, hid int, batchSz int, tick time.Du
 		}
 		line := real
 		var o string
+		if strings.HasPrefix(real, "qentry ") {
+			n.applyOnly(t, real)
+			h.ops = append(h.ops, real)
+			h.out = append(h.out, "queued")
+			continue
+		}
 		ok := n.applyOnly(t, real)
+		if real == "qsync" {
+			line = "sync"
+		}
 		if ok && (tick == time.Hour || real == "tick") {
 			o = n.observe()
 		}
@@ -873,8 +907,9 @@ func c25Judge(rep *vfReport, h *c25Hist, mode string) (lost, mislabelled int) {
 					if !e.tx && e.groups() > 1 {
 						class = "multi-statement-non-tx-entry"
 					}
-					rep.Fail(mode+"broadcast:hwm-at-or-above-an-undelivered-change:"+class,
-						fmt.Sprintf("this node broadcast HWM %d when change %d.%d had not reached the endpoint", hv, e.idx, j), replay)
+					// an internal promise, not the property: counted, not reported (the end-to-end
+					// consequence is judged by c25TwoNodes and by the lost:/mislabelled: oracles)
+					rep.Count("broadcast-above-an-undelivered-change:" + class)
 				}
 			}
 		}
@@ -891,6 +926,14 @@ func c25Judge(rep *vfReport, h *c25Hist, mode string) (lost, mislabelled int) {
 	return
 }
 
+func c25QEntries(from, n int) []string {
+	var ops []string
+	for i := 0; i < n; i++ {
+		ops = append(ops, fmt.Sprintf("qentry %d 0 1", from+i))
+	}
+	return ops
+}
+
 func c25Heal(g *c25Gen) []string {
 	var ops []string
 	if !g.up {
@@ -903,6 +946,70 @@ func c25Heal(g *c25Gen) []string {
 	}
 	ops = append(ops, "timer")
 	return ops
+}
+
+// c25TwoNodes: two real services fed the same log, different batch sizes. After a restart
+// node A's HWM is (first FIFO key - 1); as leader with the endpoint down it broadcasts that
+// HWM; node B prunes on it; then B leads and delivers, broadcasts its own HWM, A prunes.
+// Returns the changes no node ever delivered, even after A leads again.
+func c25TwoNodes(t *testing.T, root string) (lost []string, trace []string) {
+	ResetStats()
+	ep := c25NewEndpoint()
+	defer ep.srv.Close()
+	mk := func(id, b int, tick time.Duration) *c25Node {
+		dir := fmt.Sprintf("%s/two-%d", root, id)
+		os.MkdirAll(dir, 0o755)
+		return &c25Node{id: id, dir: dir, batchSz: b, tick: tick, ep: ep, cl: &c25Cluster{nPosts: ep.nPosts}, settleMs: 5}
+	}
+	a, b := mk(0, 2, 2*time.Millisecond), mk(1, 1, 2*time.Millisecond)
+	a.cl.peers = []*c25Cluster{b.cl}
+	b.cl.peers = []*c25Cluster{a.cl}
+	ep.tenure = func(node int) int {
+		if node == 0 {
+			return a.tenure
+		}
+		return b.tenure
+	}
+	a.start(t)
+	b.start(t)
+	defer func() { a.svc.Stop(); b.svc.Stop() }()
+	step := func(n *c25Node, op string) {
+		o, ok := n.apply(t, op)
+		trace = append(trace, fmt.Sprintf("node%d %s => %s (ok=%v)", n.id, op, o, ok))
+	}
+	for _, e := range []string{"entry 5 0 1", "entry 6 0 1"} {
+		step(a, e)
+		step(b, e)
+	}
+	step(a, "restart")
+	step(a, "endpoint 0")
+	step(a, "leader 1")
+	step(a, "tick") // broadcasts its HWM (5) to B while entry 5 has never been sent
+	step(b, "timer")
+	step(a, "leader 0")
+	step(a, "endpoint 1")
+	step(b, "leader 1")
+	step(b, "tick") // B has delivered 6 and announces it; A prunes
+	step(a, "timer")
+	step(b, "leader 0")
+	step(a, "leader 1") // even the node that still had entry 5 cannot send it any more
+	step(a, "timer")
+	got := map[string]bool{}
+	ep.mu.Lock()
+	for _, p := range ep.posts {
+		for _, g := range p.groups {
+			for _, c := range g.chg {
+				got[c] = true
+			}
+		}
+	}
+	ep.mu.Unlock()
+	for _, c := range []string{"5.0", "6.0"} {
+		if !got[c] {
+			lost = append(lost, c)
+		}
+	}
+	return lost, trace
 }
 
 func TestVerifC25(t *testing.T) {
@@ -930,6 +1037,9 @@ func TestVerifC25(t *testing.T) {
 		{3, []string{"leader 1", "entry 77 0 1,1,1", "timer"}, false},
 		{2, []string{"leader 1", "entry 5 0 1", "entry 77 0 1,1,1", "timer"}, false},
 		{2, []string{"entry 5 1 1,2", "entry 6 0 0,1,0,1", "sync", "restart", "leader 1", "timer"}, false},
+		// forced schedule: a snapshot is requested while the groups of the last entries are still
+		// in the hand-off channel; then the node restarts (nothing above the snapshot to replay)
+		{64, append(append([]string{}, c25QEntries(5, 60)...), "qsync", "restart", "leader 1", "timer"), false},
 		// leader loses leadership while retrying
 		{1, []string{"leader 1", "endpoint 0", "entry 5 0 1", "entry 6 0 1", "leader 0", "endpoint 1", "leader 1", "timer"}, false},
 	}
@@ -1000,7 +1110,7 @@ func TestVerifC25(t *testing.T) {
 		var nEntry, nMulti, nOut, nLead, nRestart, nSync, nHwm int
 		for _, op := range h.ops {
 			switch strings.Fields(strings.TrimPrefix(op, "T "))[0] {
-			case "entry":
+			case "entry", "qentry":
 				nEntry++
 			case "endpoint":
 				nOut++
@@ -1046,4 +1156,15 @@ func TestVerifC25(t *testing.T) {
 		}
 	}
 	rep.vfCompareSegments("cdcpipe", segOps, segImpl)
+
+	// two real nodes: does the restart HWM heuristic lose a change end to end?
+	lost, trace := c25TwoNodes(t, root)
+	rep.Count("two-node-scenarios")
+	if len(lost) > 0 {
+		rep.Fail("lost:single-group-entry:two-nodes:restart-hwm-broadcast-then-leader-change",
+			fmt.Sprintf("changes %v were never delivered by ANY node: node A (batch size 2) restarted with entries 5,6 in one FIFO item keyed 6, so its HWM became 5; leading during an outage it broadcast 5; node B (batch size 1) pruned entry 5; B then led, delivered only 6 and broadcast 6; A pruned its item and can no longer send entry 5", lost),
+			map[string]interface{}{"trace": trace})
+	} else {
+		rep.Note("two-node restart-HWM scenario: every change was delivered (%d steps)", len(trace))
+	}
 }
